@@ -18,6 +18,12 @@ MUTS=[("h1 getinputmode 8 == len(data)","src/pyubx2/ubxhelpers.py","len(data) ==
 ("h15 read preamble tuple reordered","src/pyubx2/ubxreader.py",'if byte1 not in (b"\\xb5", b"\\x24", b"\\xd3"):','if byte1 not in (b"\\x24", b"\\xd3", b"\\xb5"):'),
 ("h16 _do_error test swapped","src/pyubx2/ubxreader.py","if self._quitonerror == ERR_RAISE:","if ERR_RAISE == self._quitonerror:"),
 ("h17 _read_bytes eof test swapped","src/pyubx2/ubxreader.py","        if len(data) == 0:  # EOF","        if 0 == len(data):  # EOF"),
+("h18 isvalid_checksum operands swapped","src/pyubx2/ubxhelpers.py","return ckm == calc_checksum(message[2 : lenm - 2])","return calc_checksum(message[2 : lenm - 2]) == ckm"),
+("h19 _get_dict POLL test swapped","src/pyubx2/ubxmessage.py","elif self._mode == POLL:","elif POLL == self._mode:"),
+("h20 _get_dict NOMINAL test swapped","src/pyubx2/ubxmessage.py",'if self.identity[-7:] == "NOMINAL":','if "NOMINAL" == self.identity[-7:]:'),
+("h21 getinputmode VALGET test swapped","src/pyubx2/ubxhelpers.py",'or data[2:4] == b"\\x06\\x8b"','or b"\\x06\\x8b" == data[2:4]'),
+("h22 rxmpmreq lpd test swapped","src/pyubx2/ubxvariants.py","    if lpd == 16:\n        return UBX_PAYLOADS_SET[\"RXM-PMREQ\"]","    if 16 == lpd:\n        return UBX_PAYLOADS_SET[\"RXM-PMREQ\"]"),
+("h23 getinputmode len bound swapped","src/pyubx2/ubxhelpers.py","and len(data) <= 10","and 10 >= len(data)"),
 ]
 if len(sys.argv)>1: MUTS=[m for m in MUTS if m[0].split()[0] in sys.argv[1:]]
 for name,f,a,b in MUTS:
